@@ -16,6 +16,7 @@ def run(rep, prog, tier):
     r1(rep, prog)
     r2(rep, prog)
     r3(rep, prog)
+    r4(rep, prog)
 
 
 def r3(rep, prog):
@@ -65,6 +66,38 @@ def r3(rep, prog):
                 rep.fail(R, "key source %s" % str(leaf[:2]), "the sort key of a sorted segment has a source that is not an order-preserving mapping of the value: %s" % str(leaf[:2]), site=b.span)
     rep.check(seen >= set(want), R, "every NumericalValue variant has an order-preserving key", "%s" % sorted(seen),
               "variants without a recognised order-preserving key: %s" % sorted(set(want) - seen), site=b.span)
+
+
+def r4(rep, prog):
+    """the doc id mapping is handed down unchanged"""
+    import re
+    R = "C17-R4"
+    rep.rule(R, "the mapping is handed down unchanged: a function that receives the segment's doc id mapping (a parameter of type Option<&DocIdMapping>) gives exactly that parameter to every callee parameter of that type — never a constant None, never another value (JsonPostingsWriter::serialize, SpecializedPostingsWriter::serialize, serialize_postings, remap_and_write, ...): a structure serialised with None keeps insertion-order doc ids while all the others are remapped")
+    TY = re.compile(r"Option<&(tantivy::indexer::doc_id_mapping::)?DocIdMapping>")
+    n = 0
+    for fid, b in sorted(prog.bodies.items()):
+        ps = [i for i in range(1, b.argc + 1) if TY.search(b.local_ty_str(i))]
+        if not ps or "::tests::" in fid:
+            continue
+        for bi, t in b.calls():
+            callee = t.get("res") or t.get("f") or ""
+            cb = prog.bodies.get(callee)
+            for j, a in enumerate(t.get("args", [])):
+                l = op_local(a)
+                if cb is not None and j + 1 <= cb.argc:
+                    is_map = bool(TY.search(cb.local_ty_str(j + 1)))
+                elif l is not None:
+                    is_map = bool(TY.search(b.local_ty_str(l)))
+                else:
+                    is_map = "k" in a and bool(TY.search(b.types[a["k"]]["s"]))
+                if not is_map:
+                    continue
+                n += 1
+                root = option_root(b, a) if l is not None else ("const", a.get("v", "None"))
+                rep.check(root[0] == "param" and root[1] in ps, R, "%s -> %s: the mapping argument is the function's own doc_id_map" % (short(fid), short(callee)), "parameter passed through",
+                          "`%s` gives `%s` %s where its own doc id mapping parameter is expected: that structure is written without (or with another) doc id remapping on a sorted index, "
+                          "its doc ids no longer denote the documents of the other structures" % (fid, callee, root), site=site(b, bi))
+    rep.floor(R, "hand-over sites of the doc id mapping", n, 10)
 
 
 def root_of(body, o):
